@@ -6,5 +6,12 @@ package nodestate
 //@ define usageOf(used int, total int) = total == 0 ? 0.0 : (used > total ? 100.0 : 100.0 * real(used) / real(total))
 
 //@ func (app/node_state.DiskState).Usage
+//@   opt realdiv=exact
 //@   ensures C18.usage [C18]: result == usageOf(ds.Used, ds.Total)
 //@   ensures C18.usage_range [C18]: 0.0 <= result && result <= 100.0
+
+//@ define permBroken(s *nodestate.NodeState) = s.SlaveState != nil && (has(nodestate.permanentReplicationLostSQLErrorCodes, s.SlaveState.LastSQLErrno) || has(nodestate.permanentReplicationLostIOErrorCodes, s.SlaveState.LastIOErrno))
+
+//@ func (*app/node_state.NodeState).IsReplicationPermanentlyBroken
+//@   requires nonnil [safety]: ns != nil
+//@   ensures def [C17,C10,C01]: result0 == permBroken(ns)
